@@ -98,11 +98,24 @@ impl<F: Field> MulAddFusion<F> {
     fn scan_use_counts(&mut self, ops: &[Op<F>]) {
         for op in ops {
             match op {
-                Op::Alu { a, b, c, out, .. } => {
+                Op::Alu {
+                    kind,
+                    a,
+                    b,
+                    c,
+                    out,
+                    intermediate_out,
+                } => {
                     *self.use_counts.entry(*a).or_default() += 1;
                     *self.use_counts.entry(*b).or_default() += 1;
                     if let Some(c) = c {
                         *self.use_counts.entry(*c).or_default() += 1;
+                    }
+                    // A Horner step reads its accumulator, which travels in `intermediate_out`.
+                    if *kind == AluOpKind::HornerAcc
+                        && let Some(acc) = intermediate_out
+                    {
+                        *self.use_counts.entry(*acc).or_default() += 1;
                     }
                     *self.write_counts.entry(*out).or_default() += 1;
                 }
